@@ -252,24 +252,47 @@ SXOP(hash)
 }
 SXOP(same) { return Val::T(c.B(e, 1).get() == c.B(e, 2).get()); }
 // (cmp_matrix v): for all ordered pairs: cmp, eq, keyless; hashes
-SXOP(cmp_matrix)
+static Val cmp_matrix_impl(const vec_basic &v, const std::string &idx);
+SXOP(cmp_matrix) { return cmp_matrix_impl(c.VEC(e, 1), ""); }
+// (cmp_matrix_regs r0 r1 ...): uses the registers that are bound to expressions, reports which
+SXOP(cmp_matrix_regs)
 {
-    vec_basic v = c.VEC(e, 1);
+    vec_basic v;
+    std::string idx;
+    for (size_t i = 1; i < e.n(); i++) {
+        auto it = c.regs.find(e.l[i].a);
+        if (it == c.regs.end() or it->second.k != Val::BASIC) continue;
+        if (not idx.empty()) idx += ",";
+        idx += std::to_string(i - 1);
+        v.push_back(it->second.b);
+    }
+    return cmp_matrix_impl(v, idx);
+}
+static Val cmp_matrix_impl(const vec_basic &v, const std::string &idx)
+{
     size_t n = v.size();
-    std::string o = "{\"n\":" + std::to_string(n) + ",\"cmp\":[";
+    std::string o = "{\"n\":" + std::to_string(n) + ",\"idx\":[" + idx + "],\"cmp\":[";
     RCPBasicKeyLess less;
     std::string eqs, ls, hs, errs;
     for (size_t i = 0; i < n; i++) {
         for (size_t j = 0; j < n; j++) {
             int r = 9;
+            bool q = false, l = false;
+#if defined(SYMENGINE_VERIF)
+            try {
+#endif
             try {
                 r = v[i]->__cmp__(*v[j]);
             } catch (SymEngineException &ex) {
                 r = 8;
             }
-            bool q = false, l = false;
             try { q = eq(*v[i], *v[j]); } catch (SymEngineException &ex) { r = 8; }
             try { l = less(v[i], v[j]); } catch (SymEngineException &ex) { r = 8; }
+#if defined(SYMENGINE_VERIF)
+            } catch (SymEngine::verif::AssertionFailure &af) {
+                r = 7; // assertion hook fired inside a comparison: pair is reported under C03
+            }
+#endif
             if (i + j) { o += ","; eqs += ","; ls += ","; }
             o += std::to_string(r);
             eqs += q ? "1" : "0";
@@ -282,8 +305,18 @@ SXOP(cmp_matrix)
     }
     o += "],\"eq\":[" + eqs + "],\"less\":[" + ls + "],\"hash\":[" + hs + "]";
     // container probes: set_basic, unordered set
-    set_basic sb(v.begin(), v.end());
-    std::unordered_set<RCP<const Basic>, RCPBasicHash, RCPBasicKeyEq> us(v.begin(), v.end());
+    set_basic sb;
+    std::unordered_set<RCP<const Basic>, RCPBasicHash, RCPBasicKeyEq> us;
+#if defined(SYMENGINE_VERIF)
+    try {
+#endif
+    sb.insert(v.begin(), v.end());
+    us.insert(v.begin(), v.end());
+#if defined(SYMENGINE_VERIF)
+    } catch (SymEngine::verif::AssertionFailure &af) {
+        return Val::J(o + ",\"container_assert\":true}");
+    }
+#endif
     o += ",\"set_size\":" + std::to_string(sb.size()) + ",\"uset_size\":" + std::to_string(us.size());
     set_basic sb2(v.rbegin(), v.rend());
     bool same_iter = sb.size() == sb2.size();
